@@ -4,6 +4,7 @@ import (
 	"errors"
 	"fmt"
 	"hash/fnv"
+	"math"
 	"reflect"
 	"strconv"
 	"strings"
@@ -59,9 +60,58 @@ func hashHelper(expr Sexp) (hashcode int, isList bool, err error) {
 	case *SexpPair:
 		return 0, true, nil
 	case *SexpArray:
-		return int(Blake2bUint64([]byte(e.SexpString(nil)))), false, nil
+		return hashArrayKey(e, 0), false, nil
 	}
 	return 0, false, fmt.Errorf("cannot hash type %T", expr)
+}
+
+// hashArrayKey: the hash code of an array used as a key. Keys are
+// compared with ==, so the code must be equal for arrays that are ==:
+// an int, a char and a whole-number float of one value count alike.
+// (The code used to be taken from the printed form: ['a' 2] and [97 2],
+// [1 1e3] and [1 1000] were == and yet two keys - until hdel struck the
+// wrong one from the key list - and (pretty true) changed the code of
+// every array key.)
+func hashArrayKey(arr *SexpArray, depth int) int {
+	hasher := fnv.New64a()
+	var buf [9]byte
+	write := func(tag byte, v uint64) {
+		buf[0] = tag
+		for i := 0; i < 8; i++ {
+			buf[1+i] = byte(v >> (8 * uint(i)))
+		}
+		hasher.Write(buf[:])
+	}
+	for _, x := range arr.Val {
+		switch e := x.(type) {
+		case *SexpInt:
+			write('n', uint64(e.Val))
+		case *SexpChar:
+			write('n', uint64(e.Val))
+		case *SexpFloat:
+			if e.Val == math.Trunc(e.Val) && math.Abs(e.Val) < 9e18 {
+				write('n', uint64(int64(e.Val)))
+			} else {
+				write('f', math.Float64bits(e.Val))
+			}
+		case *SexpStr:
+			h32 := fnv.New32()
+			h32.Write([]byte(e.S))
+			write('s', uint64(h32.Sum32()))
+		case *SexpSymbol:
+			write('y', uint64(e.number))
+		case *SexpArray:
+			if depth > 100 {
+				write('a', 0) // e.g. an array that contains itself
+			} else {
+				write('a', uint64(hashArrayKey(e, depth+1)))
+			}
+		default:
+			// all other kinds alike; == decides within the bucket
+			write('o', 0)
+		}
+	}
+	return int(hasher.Sum64())
 }
 
 func MakeHash(args []Sexp, typename string, env *Zlisp) (*SexpHash, error) {
